@@ -1,3 +1,90 @@
-/-! Model for property C18 (core Lean only; no Mathlib). -/
+/-! Model for property C18: the evolution driver (`TimeEvolution` in
+`pytreenet/time_evolution/time_evolution.py`).  Core Lean only.
+
+* `numSteps`      ↔ `_compute_num_time_steps` (with "0.1" read as the double nearest 0.1)
+* `numCols`       ↔ `init_results`
+* `shouldEval`    ↔ `should_evaluate`
+* `resultIndex`   ↔ `result_index`
+* `run`           ↔ `run` (loop over `range(num_time_steps+1)`, step unless `i = 0`,
+                    then `evaluate_and_save_results`)
+* `operatorIndex` ↔ `_init_operator_index_dict` / `operator_result`
+-/
 namespace Ptn.C18
+
+/-- The IEEE double nearest to 0.1, as an exact rational. -/
+def c01 : Rat := 3602879701896397 / 36028797018963968
+
+/-- `_compute_num_time_steps` on the exact value `q` of the double `final_time / time_step_size`
+    (`q > 0` is enforced by `positivity_check`).  `modf` splits `q` exactly. -/
+def numSteps (q : Rat) : Int :=
+  if q - (q.floor : Rat) < c01 then q.floor else q.floor + 1
+
+/-- Evaluation interval: `some k` for an integer `k`, `none` for `"inf"`. -/
+abbrev EvalTime := Option Nat
+
+def numCols (n : Nat) : EvalTime → Nat
+  | some k => n / k + 1
+  | none => 1
+
+def shouldEval (n : Nat) (ev : EvalTime) (i : Nat) : Bool :=
+  match ev with
+  | some k => i % k == 0
+  | none => i == n
+
+def resultIndex (ev : EvalTime) (i : Nat) : Nat :=
+  match ev with
+  | some k => i / k
+  | none => 0
+
+/-- One write into the results table: column index, time-step number, observed value. -/
+structure Write (β : Type) where
+  col : Nat
+  stepNo : Nat
+  val : β
+deriving Repr, DecidableEq
+
+/-- Loop body for loop index `i`: step unless `i = 0`, then evaluate-and-save. -/
+def body {σ β : Type} (step : σ → σ) (obs : σ → β) (n : Nat) (ev : EvalTime)
+    (acc : σ × List (Write β)) (i : Nat) : σ × List (Write β) :=
+  let s := if i = 0 then acc.1 else step acc.1
+  let ws := if shouldEval n ev i then acc.2 ++ [⟨resultIndex ev i, i, obs s⟩] else acc.2
+  (s, ws)
+
+/-- `run`: the final state and the chronological list of table writes. -/
+def run {σ β : Type} (step : σ → σ) (obs : σ → β) (n : Nat) (ev : EvalTime) (s0 : σ) :
+    σ × List (Write β) :=
+  (List.range (n + 1)).foldl (body step obs n ev) (s0, [])
+
+/-- The table: column `j` holds the last write to `j` (or `none` if never written: the zero
+    initialisation of `init_results`). -/
+def table {β : Type} (ncols : Nat) (ws : List (Write β)) : List (Option (Write β)) :=
+  (List.range ncols).map fun j => (ws.reverse.find? (fun w => w.col == j))
+
+/-- How operators are addressed afterwards. -/
+inductive OpSpec where
+  | single
+  | list (len : Nat)
+  | dict (keys : List String)
+
+def OpSpec.count : OpSpec → Nat
+  | .single => 1
+  | .list n => n
+  | .dict ks => ks.length
+
+/-- `_init_operator_index_dict`: only a dict yields key → position; Python dict keys are unique,
+    a later duplicate cannot occur. -/
+def operatorIndex (spec : OpSpec) (key : String) : Option Nat :=
+  match spec with
+  | .dict ks => let i := ks.idxOf key; if i < ks.length then some i else none
+  | _ => none
+
+/-- The refined machine of the concrete classes: the state seen by the user plus data derived from
+    it (gauge centre, environment cache).  `reset` restores the user state and re-derives. -/
+structure Refined (υ δ : Type) where
+  derive : υ → δ
+  step : υ × δ → υ × δ
+
+def Refined.init {υ δ : Type} (m : Refined υ δ) (u0 : υ) : υ × δ := (u0, m.derive u0)
+def Refined.reset {υ δ : Type} (m : Refined υ δ) (u0 : υ) (_cur : υ × δ) : υ × δ := m.init u0
+
 end Ptn.C18
